@@ -119,6 +119,8 @@ type Exec struct {
 	ifaceRecv string
 	deferred []*deferred
 	preArgs  []Term
+	closures map[*types.Var]*closure
+	inlineStack []string
 	preludeSyms   map[string]bool
 	preludeConsts map[string]*Sort
 	preludeAxioms []PreludeItem
@@ -218,24 +220,21 @@ func (ex *Exec) merge(a, b *State) *State {
 			r.vars[k] = y
 		}
 	}
+	// a heap / global that one side never touched still has its entry value there
 	for k, x := range a.heaps {
-		if y, ok := b.heaps[k]; ok {
-			r.heaps[k] = mergeVal(k, x, y)
-		}
+		r.heaps[k] = mergeVal(k, x, ex.heap(b, k))
 	}
 	for k, y := range b.heaps {
 		if _, ok := a.heaps[k]; !ok {
-			r.heaps[k] = y
+			r.heaps[k] = mergeVal(k, ex.heap(a, k), y)
 		}
 	}
 	for k, x := range a.globals {
-		if y, ok := b.globals[k]; ok {
-			r.globals[k] = mergeVal("G_"+k.Name(), x, y)
-		}
+		r.globals[k] = mergeVal("G_"+k.Name(), x, ex.global(b, k))
 	}
 	for k, y := range b.globals {
 		if _, ok := a.globals[k]; !ok {
-			r.globals[k] = y
+			r.globals[k] = mergeVal("G_"+k.Name(), ex.global(a, k), y)
 		}
 	}
 	for k, x := range a.ghost {
@@ -257,6 +256,7 @@ func (ex *Exec) heap(st *State, name string) Term {
 	// first use: the heap has its entry value on every path (states share the entry symbol)
 	t := ex.U.DeclareConst(name+"@pre", ex.heapSort(name))
 	ex.initHeapFacts(name, t)
+	ex.entryHeapFacts(name, t)
 	st.heaps[name] = t
 	if ex.entry != nil {
 		if _, ok := ex.entry.heaps[name]; !ok {
@@ -264,6 +264,13 @@ func (ex *Exec) heap(st *State, name string) Term {
 		}
 	}
 	return t
+}
+
+// entryHeapFacts: closedness of the heap at function entry for cells that hold references
+func (ex *Exec) entryHeapFacts(name string, t Term) {
+	if strings.HasPrefix(name, "H_") && ex.U.heaps[name] == "(Array Int Int)" {
+		ex.facts = append(ex.facts, fmt.Sprintf("(forall ((r Int)) (! (and (>= (select %s r) 0) (<= (select %s r) alloc@pre)) :pattern ((select %s r))))", t.S, t.S, t.S))
+	}
 }
 
 func (ex *Exec) initHeapFacts(name string, t Term) {
@@ -674,6 +681,12 @@ func (ex *Exec) binary(x *ast.BinaryExpr) Term {
 	ta, tb := ex.info.TypeOf(x.X), ex.info.TypeOf(x.Y)
 	// comparisons between interface and concrete values
 	if x.Op == token.EQL || x.Op == token.NEQ {
+		// comparison with the nil literal: nil of the other operand's type
+		if b.S == "nilAny" && a.Sort.Kind != KAny {
+			b = ex.U.Zero(a.Sort)
+		} else if a.S == "nilAny" && b.Sort.Kind != KAny {
+			a = ex.U.Zero(b.Sort)
+		}
 		if a.Sort.Kind == KAny && b.Sort.Kind != KAny {
 			b = ex.coerce(b, tb, ta)
 		} else if b.Sort.Kind == KAny && a.Sort.Kind != KAny {
